@@ -25,7 +25,10 @@ PROPS = {
         level_note='Trusted: extraction rewrite table (logging deleted, derives replaced, struct sliced to the 7 scalar fields used); assumed at call sites: Subscription::tick calls update_state once per elapsed interval and never with ReceivePublishRequest+timer expired; handle_state_result maps actions to messages; inv is the C23 postcondition. Known finding: max_keep_alive==1 && max_lifetime==3.',
         technique='Verus contracts (requires/ensures) spliced onto mechanically extracted real functions + inductive proof fns; Kani twin on the real crate for counterexamples',
         verus=['c22_state_table'],
-        kani=[],
+        kani=[
+            H('c22::c22_update_state_twin', 'C22.twin', functions=['lib/src/server/subscriptions/subscription.rs:Subscription::update_state (compiled, via verif_update_state)']),
+            H('c22::c22_kf_ka1_lt3_witness', 'C22.kf.ka1_lt3', kind='bounded', bound='one concrete 4-step history (witness of a known finding, not a proof)', witness_for='C22.ka1_lt3'),
+        ],
         explanation='Verus proves the step contract of the real Subscription::update_state for all states/inputs and the '
                     'two history lemmas by induction over that contract',
     ),
